@@ -964,3 +964,80 @@ def check_parser(ctx, rid, aspects=("index", "pairs")):
               f"Parser.forward returns the defined counts, atom lists, block indices and pair records on {n_runs} concrete padded batches (1-3 molecules, all real-atom counts, "
               f"infinite and finite cutoff with a pair inside the cutoff cube but outside the sphere)",
               f"Parser.forward: {bad[0] if bad else ''} ({len(bad)} discrepancies on {n_runs} interpreted batches): molecules of a padded batch are mis-indexed / the pair list is not the radial cutoff list")
+
+
+# ====================================================================================================================
+# request validation, decided by interpreting the validators on concrete requests
+def interpreted_check_input(repo):
+    """check_input(species) on every 2 x 3 array over {0, 1, 2}: it must raise exactly when some row increases somewhere (the documented precondition: non-increasing rows,
+    equal neighbours allowed, every adjacent pair compared).  Returns (ok, message)."""
+    import itertools
+    import numpy as np
+    from .npsym import NpSym, Raised
+    mol = repo.mod("seqm/Molecule.py")
+    f = mol.func("check_input")
+    n = 0
+    for vals in itertools.product((0, 1, 2), repeat=6):
+        sp_ = np.array(vals, dtype=np.int64).reshape(2, 3)
+        unsorted = any(sp_[r, c + 1] > sp_[r, c] for r in range(2) for c in range(2))
+        I = NpSym(repo)
+        try:
+            I.call_function(mol, f, [sp_])
+            raised = False
+        except Raised:
+            raised = True
+        n += 1
+        if raised != unsorted:
+            return False, (f"check_input {'rejects the sorted' if raised else 'accepts the unsorted'} species array {sp_.tolist()} (exhaustive run over 2 x 3 arrays with values 0..2): "
+                           f"{'valid input is refused' if raised else 'a species row that is not non-increasing reaches the parser'}")
+    return True, f"check_input raises exactly for the arrays with an increasing neighbour pair ({n} arrays, exhaustive)"
+
+
+def interpreted_parser_guards(repo):
+    """{row id: (ok, message)} for the electron-count guards of Parser.forward, each decided on concrete requests: the violating request must raise (also when it is the second
+    molecule of a batch), the neighbouring valid requests must not."""
+    import numpy as np
+    import sympy as sp
+    from .npsym import NpSym, Raised
+    bs = repo.mod("seqm/basics.py")
+    f = bs.func("Parser.forward")
+    tore = np.array([0, 1, 0, 0, 0, 0, 4, 5, 6, 7], dtype=np.int64)
+
+    def run(species, charge, mult=None, uhf=False, auto=False):
+        species = np.array(species, dtype=np.int64)
+        nmol, ms = species.shape
+        coords = np.array([[[sp.Integer(m * 7 + p), sp.Integer(p * p), sp.Integer(0)] for p in range(ms)] for m in range(nmol)], dtype=object)
+        mol = types.SimpleNamespace(species=species, coordinates=coords, const=types.SimpleNamespace(tore=tore, length_conversion_factor=sp.Rational(189, 100)),
+                                    tot_charge=np.array(charge, dtype=np.int64), mult=np.array(mult if mult is not None else [1] * nmol, dtype=np.int64))
+        selfns = types.SimpleNamespace(outercutoff=sp.Integer(10) ** 10, uhf=uhf, hipnn_automatic_doublet=auto, elements=None)
+        try:
+            NpSym(repo).call_function(bs, f, [selfns, mol, "AM1"])
+            return False
+        except Raised:
+            return True
+    H2, OH, CH2O = [1, 1, 0, 0], [8, 1, 0, 0], [8, 6, 1, 1]
+    out = {}
+
+    def decide(rid, must_raise, must_pass, what):
+        for label, args in must_raise:
+            if not run(*args[0], **args[1]):
+                out[rid] = (False, f"{what}: the request `{label}` is accepted (interpreted run of Parser.forward)")
+                return
+        for label, args in must_pass:
+            if run(*args[0], **args[1]):
+                out[rid] = (False, f"the valid request `{label}` is rejected (interpreted run of Parser.forward)")
+                return
+        out[rid] = (True, f"{what}: {len(must_raise)} violating requests raise, {len(must_pass)} valid neighbours pass (interpreted runs)")
+    A = lambda *a, **k: (a, k)
+    decide("rhf-odd-electrons", [("OH radical, RHF", A([OH], [0])), ("batch [CH2O, OH], RHF", A([CH2O, OH], [0, 0])), ("CH2O cation, RHF", A([CH2O], [1]))],
+           [("OH-, RHF", A([OH], [-1])), ("CH2O, RHF", A([CH2O], [0])), ("batch [CH2O, OH-]", A([CH2O, OH], [0, -1]))], "odd electron count with a restricted reference")
+    decide("uhf-fractional-alpha", [("OH radical as singlet, UHF", A([OH], [0], mult=[1], uhf=True)), ("CH2O doublet, UHF", A([CH2O], [0], mult=[2], uhf=True)),
+                                    ("batch [CH2O singlet, OH singlet], UHF", A([CH2O, OH], [0, 0], mult=[1, 1], uhf=True))],
+           [("OH doublet, UHF", A([OH], [0], mult=[2], uhf=True)), ("CH2O triplet, UHF", A([CH2O], [0], mult=[3], uhf=True)),
+            ("OH as singlet with automatic doublets", A([OH], [0], mult=[1], uhf=True, auto=True))], "charge/multiplicity pair with a non-integer number of alpha electrons")
+    out["uhf-fractional-beta"] = out["uhf-fractional-alpha"]
+    decide("negative-occupation", [("H2 with charge +4, RHF", A([H2], [4])), ("H2 septet, UHF", A([H2], [0], mult=[7], uhf=True)), ("batch [CH2O, H2 4+]", A([CH2O, H2], [0, 4]))],
+           [("H2 2+, RHF", A([H2], [2])), ("H2 triplet, UHF", A([H2], [0], mult=[3], uhf=True))], "charge/multiplicity pair that needs a negative number of occupied orbitals")
+    decide("occupation-exceeds-basis", [("H2 with charge -4, RHF", A([H2], [-4])), ("H2 quintet, UHF", A([H2], [0], mult=[5], uhf=True)), ("batch [CH2O, H2 4-]", A([CH2O, H2], [0, -4]))],
+           [("H2 2-, RHF", A([H2], [-2])), ("H2 triplet, UHF", A([H2], [0], mult=[3], uhf=True))], "charge/multiplicity pair that needs more occupied orbitals than the valence basis has")
+    return out
